@@ -209,10 +209,17 @@ def check_closure_before_insert(P, r3):
                 return None
             return ident(f.origin(o[1].args[0]))
         # the closure runs over the full discovered set (the generator's parameter), like collect_used_types does — not over the set collected so far
+        def struct_map_arg(c):
+            """the argument bound to the callee's `&HashMap<String, StructInfo>` parameter (by its type, wherever the receiver or the order puts it)"""
+            h = P.fns.get(c.best)
+            if h is None:
+                return None
+            hits = [i for i in range(min(len(c.args), h.arg_count)) if "HashMap<" in h.locals[i + 1] and "StructInfo" in h.locals[i + 1] and "&mut" not in h.locals[i + 1]]
+            return c.args[hits[0]] if len(hits) == 1 else None
         cu0 = [c for c in f.calls if short_path(c.best) == "TypeCollector::collect_used_types"]
-        universe = ident(f.origin(cu0[0].args[2])) if cu0 and len(cu0[0].args) > 2 else None
+        universe = ident(f.origin(struct_map_arg(cu0[0]))) if cu0 and struct_map_arg(cu0[0]) is not None else None
         for d in dn:
-            u = ident(f.origin(d.args[2])) if len(d.args) > 2 else None
+            u = ident(f.origin(struct_map_arg(d))) if struct_map_arg(d) is not None else None
             if universe is not None and u == universe and u[0] == "arg":
                 r3.ok("%s: discover_nested_dependencies searches the discovered set" % short_path(gid))
             else:
